@@ -17,7 +17,10 @@ LEVEL_NOTE = 'trusted: CPython pickle/int'
 from checks.c20 import SMALL
 LARGE = [('p', 251), ('p', 257), ('p', 65521), ('p', 65537), ('p', 2**61 - 1), ('p', 2**255 - 19), ('p', 2**256 - 189), ('p', 2**127 - 1),
          ('p', 2**64 - 59), ('p', 2**64 + 13), ('x', 2, 'x^8+x^4+x^3+x+1'), ('x', 2, 'x^9+x+1'), ('x', 3, 'x^5+2x+1'), ('x', 2, 'x^128+x^7+x^2+x+1'),
-         ('x', 2, 'x^16+x^5+x^3+x+1'), ('x', 7, 'x^3+6x^2+4')]
+         ('x', 2, 'x^16+x^5+x^3+x+1'), ('x', 7, 'x^3+6x^2+4'),
+         # one field per byte length 3..9 (prime and binary)
+         ('p', 2**24 - 3), ('p', 2**31 - 1), ('p', 2**32 - 5), ('p', 2**40 - 87), ('p', 2**48 - 59), ('p', 2**56 - 5), ('p', 2**72 - 93),
+         ('x', 2, 'x^24+x^4+x^3+x+1'), ('x', 2, 'x^31+x^3+1'), ('x', 2, 'x^32+x^7+x^3+x^2+1'), ('x', 2, 'x^40+x^5+x^4+x^3+1')]
 
 
 def shards(tier, seed):
@@ -96,6 +99,38 @@ def run(shard, rec):
                 if int(e) != v % q:
                     rec.violation(f'{fname}: int(F({v})) = {int(e)}', {'mechanism': 'int-view'}, {'case': case}, case=case)
                 rec.case(case, nontrivial=v > 1)
+
+    # pickle must give back the same field type whatever else the process did in between (multi-step history: many other fields created)
+    case = [fname, 'pickle-after-other-fields']
+    if rec.wants(case):
+        from mpyc import finfields, gfpx
+        from vlib.oracles import ref
+        e = field(rng.randrange(q))
+        blobs = [pickle.dumps(e, protocol=pr) for pr in (0, 2, pickle.HIGHEST_PROTOCOL)]
+        cnt, n_ = 0, 1000 + rng.randrange(1000)
+        while cnt < 140:                                 # 140 further prime fields
+            n_ += 1
+            if ref.is_prime_td(n_):
+                finfields.GF(n_)
+                cnt += 1
+        P2 = gfpx.GFpX(2)
+        pol = P2(1 << 9)
+        for _ in range(140):                             # 140 further binary fields
+            pol = P2.next_irreducible(pol)
+            finfields.GF(pol)
+        rec.count('pickle_after_history')
+        for blob in blobs:
+            e2 = pickle.loads(blob)
+            ok = type(e2) is type(e) and e2 == e
+            try:
+                ok = ok and (e2 + e == e + e) and (e2 - e == field(0))
+            except Exception as ex:
+                ok = False
+            if not ok:
+                rec.violation(f'{fname}: after creating 280 other fields, unpickling gives an element of a different field type ({type(e2).__name__} is {type(e).__name__}: {type(e2) is type(e)}; equal: {e2 == e})',
+                              {'mechanism': 'pickle-field-identity'}, {'case': case}, case=case)
+                break
+        rec.case(case, nontrivial=True)
 
     if shard['mode'] == 'all':
         roundtrip([])
